@@ -16,6 +16,9 @@
 //!   18 _ b template_from_str + render   19 _ b compile_expression + eval   20 _ b compile_expression_owned + eval
 //!   21 a b template_from_named_str + undeclared_variables   22 c  set_trim_blocks(c&1), set_keep_trailing_newline(c&2)
 //!   15 a b  get_template(a).render(context whose Serialize fails (b=0) / panics)
+//!   26 a b capture: render name a with the `stash` function armed (or, (b/4)%2 = 1, render_captured + State::lookup) in
+//!          thread mode b%4; the value that escapes (macro / loop / namespace / caller) is the `f` of later contexts;
+//!          reports `6 kind` when something escaped     27 s  the same from an ad-hoc template of form s
 //!   23 a   set_formatter (odd a: a formatter that renders a template itself first)   24 a  set_auto_escape_callback (ditto)
 //! Registry variants w >= 4 are callables that render a template themselves (same environment / a clone / a fresh
 //! one); `site` variants w >= 4 are objects whose Display / attribute lookup / method render a template;
@@ -34,7 +37,7 @@ use serde::ser::{Error as _, Serialize, SerializeStruct, Serializer};
 use std::borrow::Cow;
 use std::panic::{catch_unwind, AssertUnwindSafe};
 use std::sync::atomic::{AtomicI64, Ordering};
-use std::sync::Arc;
+use std::sync::{Arc, Mutex};
 
 pub const NAMES: [&str; 4] = ["a", "b", "c", "d"];
 pub const REG_NAMES: [[&str; 4]; 3] = [["cf", "abs", "kf", "cf3"], ["ct", "odd", "kt", "ct3"], ["cg", "range", "site", "kw"]];
@@ -56,8 +59,22 @@ pub fn src_text(x: i64) -> String {
         ),
         6 => format!("{{% for i in [1] %}}\n{{{{ {} }}}}{{% endfor %}}", p),
         7 => format!("{{% if true %}}{{{{ {} }}}}{{% endif %}}\n", p),
+        0 if p.rem_euclid(4) == 3 => macro_page(p.div_euclid(4)),
         _ => format!("{{{{ {} }}}}", expr_text(x)),
     }
+}
+
+/// A template that lets a render-local value ESCAPE (hands it to the user function `stash`, and leaves
+/// it where State::lookup finds it) and that calls the value `f` of its context if there is one:
+/// form 0 a macro, 1 the loop object, 2 a namespace, 3 the caller of a call block.
+pub fn macro_page(form: i64) -> String {
+    let head = match form.rem_euclid(4) {
+        0 => "{% macro hello() %}{{ 100 + q }}{% endmacro %}{{ stash(hello, 1) }}",
+        1 => "{% for i in [1, 2] %}{% if loop.first %}{{ stash(loop, 2) }}{% endif %}{% endfor %}",
+        2 => "{% set ns = namespace(v=7) %}{{ stash(ns, 3) }}",
+        _ => "{% macro m() %}{{ stash(caller, 4) }}{% endmacro %}{% call m() %}x{% endcall %}",
+    };
+    format!("{}{{% if f is defined %}}{{{{ f() }}}}{{% else %}}{{{{ 100 + q }}}}{{% endif %}}", head)
 }
 
 /// The same source as an expression (for compile_expression).
@@ -83,6 +100,7 @@ pub fn expr_text(x: i64) -> String {
         13 => "(data|string)|length".to_string(),
         14 => "1 if q is kt(opt=1) else 0".to_string(),
         15 => ["site", "site.n", "site.go(1)"][p.rem_euclid(3) as usize].to_string(),
+        0 if p.rem_euclid(4) == 3 => "f() if f is defined else 100 + q".to_string(),
         _ => format!("{}", p),
     }
 }
@@ -195,11 +213,42 @@ pub struct Ctx {
     x: Value,
     q: i64,
     data: Value,
+    #[serde(skip_serializing_if = "Option::is_none")]
+    f: Option<Value>,
 }
 /// The context of a render: `q` varies between renders, `data` is one container object (with a key
 /// JSON cannot represent) that is reused by every render of a world.
 pub fn ctx_of(q: i64, data: &Value) -> Serde<Ctx> {
-    Serde(Ctx { x: Value::from(vec![1, 2, 3]), q, data: data.clone() })
+    ctx_f(q, data, &None)
+}
+/// ... with `f`: a value that escaped from an earlier render (a macro, a loop object, a namespace, a caller).
+pub fn ctx_f(q: i64, data: &Value, f: &Option<Value>) -> Serde<Ctx> {
+    Serde(Ctx { x: Value::from(vec![1, 2, 3]), q, data: data.clone(), f: f.clone() })
+}
+
+/// Where escaped values are kept: `stash(value, kind)` stores only while a capture operation is running.
+#[derive(Default)]
+pub struct Slot {
+    pub armed: bool,
+    pub val: Option<(Value, i64)>,
+}
+
+/// Runs `go` on the main thread (0), on a fresh thread (1), or on a fresh thread that has rendered 1 (2)
+/// or 3 (3) other templates before.
+pub fn on_thread<T: Send>(tm: i64, go: impl FnOnce() -> T + Send) -> Option<T> {
+    match tm.rem_euclid(4) {
+        0 => Some(go()),
+        tm => std::thread::scope(|s| {
+            s.spawn(move || {
+                for _ in 0..[0, 0, 1, 3][tm as usize] {
+                    let _ = unrelated_env().render_str("{{ 1 }}", ());
+                }
+                go()
+            })
+            .join()
+            .ok()
+        }),
+    }
 }
 
 fn map_of(pairs: Vec<(Value, Value)>) -> Value {
@@ -232,25 +281,21 @@ impl std::io::Write for FailingSink {
     }
 }
 
-/// One render call: rc = q + 4*sink + 8*thread: context q = rc%4; into a failing writer; on a
-/// thread of its own.
-pub fn render_call(env: &Environment<'static>, name: &str, rc: i64, data: &Value) -> (i64, i64) {
+/// One render call: rc = q + 4*sink + 8*thread: context q = rc%4; into a failing writer; thread mode
+/// (rc/8)%4 (see on_thread).  `f` = the escaped value passed in the context, if any.
+pub fn render_call(env: &Environment<'static>, name: &str, rc: i64, data: &Value, f: &Option<Value>) -> (i64, i64) {
     let q = rc.rem_euclid(4);
     let sink = rc.div_euclid(4).rem_euclid(2) == 1;
     let go = || {
         enc(env.get_template(name).and_then(|t| {
             if sink {
-                t.render_captured_to(ctx_of(q, data), FailingSink).map(|_| "0".to_string())
+                t.render_captured_to(ctx_f(q, data, f), FailingSink).map(|_| "0".to_string())
             } else {
-                t.render(ctx_of(q, data))
+                t.render(ctx_f(q, data, f))
             }
         }))
     };
-    if rc.div_euclid(8).rem_euclid(2) == 1 {
-        std::thread::scope(|s| s.spawn(go).join().unwrap_or((2, 0)))
-    } else {
-        go()
-    }
+    on_thread(rc.div_euclid(8), go).unwrap_or((4, 1))
 }
 
 /// A context that hands a Value to the serializer (so a value handle is registered) and then
@@ -294,10 +339,10 @@ fn leak(s: String) -> &'static str {
     Box::leak(s.into_boxed_str())
 }
 
-pub fn observe(env: &Environment<'static>, data: &Value, out: &mut Vec<String>) {
+pub fn observe(env: &Environment<'static>, data: &Value, f: &Option<Value>, out: &mut Vec<String>) {
     let c = env.clone();
     for n in NAMES {
-        let (t, v) = catch_unwind(AssertUnwindSafe(|| enc(c.get_template(n).and_then(|t| t.render(ctx_of(0, data))))))
+        let (t, v) = catch_unwind(AssertUnwindSafe(|| enc(c.get_template(n).and_then(|t| t.render(ctx_f(0, data, f))))))
             .unwrap_or((4, 1));
         out.push(t.to_string());
         out.push(v.to_string());
@@ -305,6 +350,7 @@ pub fn observe(env: &Environment<'static>, data: &Value, out: &mut Vec<String>) 
 }
 
 pub struct World {
+    pub slot: Arc<Mutex<Slot>>,
     pub data: Value,
     pub clock: Arc<AtomicI64>,
     pub cur: Environment<'static>,
@@ -313,7 +359,68 @@ pub struct World {
 
 impl World {
     pub fn new() -> World {
-        World { data: data_value(), clock: Arc::new(AtomicI64::new(0)), cur: Environment::new(), other: None }
+        let slot: Arc<Mutex<Slot>> = Arc::default();
+        let mut cur = Environment::new();
+        let sl = slot.clone();
+        // a user function through which render-local values can leave a render
+        cur.add_function("stash", move |v: Value, kind: i64| -> String {
+            let mut g = sl.lock().unwrap();
+            if g.armed {
+                g.val = Some((v, kind));
+            }
+            String::new()
+        });
+        World { slot, data: data_value(), clock: Arc::new(AtomicI64::new(0)), cur, other: None }
+    }
+
+    /// The escaped value later renders get as `f`.
+    pub fn f(&self) -> Option<Value> {
+        self.slot.lock().unwrap().val.as_ref().map(|x| x.0.clone())
+    }
+
+    /// Capture: render (template given by `get`) with the stash armed, or take the value out of the
+    /// captured state with State::lookup; the value found replaces the escaped value.
+    fn capture<'a>(
+        &'a self,
+        tm: i64,
+        lookup: bool,
+        get: impl FnOnce(&'a Environment<'static>) -> Result<minijinja::Template<'a, 'a>, Error> + Send,
+    ) -> (i64, i64) {
+        let f_old = self.f();
+        {
+            let mut g = self.slot.lock().unwrap();
+            g.val = None;
+            g.armed = !lookup;
+        }
+        let (env, data) = (&self.cur, &self.data);
+        let r = on_thread(tm, move || match get(env) {
+            Err(e) => (Err(e), None),
+            Ok(t) => match t.render_captured(ctx_f(0, data, &f_old)) {
+                Err(e) => (Err(e), None),
+                Ok(c) => {
+                    let found = if lookup {
+                        c.state().lookup("hello").map(|v| (v, 1)).or_else(|| c.state().lookup("ns").map(|v| (v, 3)))
+                    } else {
+                        None
+                    };
+                    (Ok(c.output().to_string()), found)
+                }
+            },
+        });
+        let mut g = self.slot.lock().unwrap();
+        g.armed = false;
+        match r {
+            None => (4, 1),
+            Some((res, found)) => {
+                if lookup {
+                    g.val = found;
+                }
+                match &g.val {
+                    Some((_, kind)) => (6, *kind),
+                    None => enc(res),
+                }
+            }
+        }
     }
 
     pub fn step(&mut self, op: i64, a: i64, b: i64) -> (i64, i64) {
@@ -348,7 +455,14 @@ impl World {
                 self.clock.store(a, Ordering::SeqCst);
                 unit
             }
-            8 => render_call(&self.cur, name, b, &self.data),
+            8 => render_call(&self.cur, name, b, &self.data, &self.f()),
+            // values escaping a render: of a stored template (26: thread mode b%4, (b/4)%2 = via State::lookup instead of
+            // the stash function) or of an ad-hoc one (27)
+            26 => self.capture(b, b.div_euclid(4).rem_euclid(2) == 1, move |env| env.get_template(name)),
+            27 => {
+                let src = leak(macro_page(a));
+                self.capture(0, false, move |env| env.template_from_str(src))
+            }
             9 | 10 => {
                 let kind = if (0..2).contains(&a.div_euclid(4)) { a.div_euclid(4) } else { 2 };
                 let which = a.rem_euclid(4);
@@ -485,17 +599,17 @@ fn main() {
                 if c.i + 3 > c.v.len() {
                     out.push(t.to_string());
                     out.push(v.to_string());
-                    observe(&w.cur, &w.data, &mut out);
+                    observe(&w.cur, &w.data, &w.f(), &mut out);
                 }
                 continue;
             }
             out.push(t.to_string());
             out.push(v.to_string());
-            observe(&w.cur, &w.data, &mut out);
+            observe(&w.cur, &w.data, &w.f(), &mut out);
             match &w.other {
                 Some(o) => {
                     out.push("1".into());
-                    observe(o, &w.data, &mut out);
+                    observe(o, &w.data, &w.f(), &mut out);
                 }
                 None => {
                     out.push("0".into());
